@@ -18,7 +18,9 @@ PRELUDE = r'''
 #include <stdlib.h>
 #define VACUITY_PROBE() __CPROVER_assert(0, "vacuity-probe")
 unsigned nondet_uint(void); unsigned short nondet_ushort(void); _Bool nondet_bool(void); long nondet_long(void);
+#ifndef NTOK
 #define NTOK 2
+#endif
 char g_raw[4096]; unsigned g_ntok; unsigned g_off[NTOK + 1]; unsigned short g_tag[NTOK]; int g_cur = -1;
 struct bf_m g_bf[NTOK + 1]; int g_nbf; long g_bf_from[NTOK + 1];
 /* ---- ASSUMED models (as in K-dec / K-copy) ---- */
@@ -67,7 +69,7 @@ struct oss_m { int dummy; }; void oss_ctor(struct oss_m *o) { }
 POST = r'''
 struct FIX8_MessageBase *gb_create_group(const struct gb_m *g, _Bool deep)
 {
-  __CPROVER_assume(g_created < 3);
+  __CPROVER_assume(g_created < NTOK + 1);
   struct FIX8_MessageBase *e = &g_elem_pool[g_created++];
   e->_fp._presence = g_group_def; e->_fields.n = 0; e->_pos.n = 0;            /* a fresh element of this group: the definition's traits, nothing present */
   return e;
@@ -76,7 +78,7 @@ static _Bool member(unsigned short tag) { for (unsigned i = 0; i < 3; ++i) if (i
 static unsigned short member_pos(unsigned short tag) { for (unsigned i = 0; i < 3; ++i) if (i < g_group_def.n && g_group_def.arr[i]._fnum == tag) return g_group_def.arr[i]._pos; return 0; }
 void h_decode_group(void)
 {
-  struct FIX8_MessageBase m, pool[3]; struct sv_m from; g_elem_pool = pool; g_created = 0; g_pushed = 0; g_group_known = nondet_bool(); g_nbf = 0; g_cur = -1; __exc = 0;
+  struct FIX8_MessageBase m, pool[NTOK + 1]; struct sv_m from; g_elem_pool = pool; g_created = 0; g_pushed = 0; g_group_known = nondet_bool(); g_nbf = 0; g_cur = -1; __exc = 0;
   /* the text */
   g_ntok = nondet_uint(); __CPROVER_assume(g_ntok <= NTOK);
   g_off[0] = nondet_uint(); __CPROVER_assume(g_off[0] <= 64);
@@ -176,6 +178,7 @@ UNIT = dict(
     ],
     postlude=POST,
     proofs=[
+        dict(name='decode_group_3_tokens', harness='h_decode_group', tier='thorough', cc_flags=['-DNTOK=3'], properties=['C04'], solvers=['cadical', 'kissat'], timeout=dict(quick=1800, thorough=3600), floor=6, level='bounded', unwind=7, object_bits=10),
         dict(name='decode_group', harness='h_decode_group', properties=['C04'], solvers=['cadical', 'kissat'], timeout=dict(quick=900, thorough=1800), floor=6, level='bounded', unwind=6, object_bits=10),
     ],
     trusted_base=['ASSUMED: the tokeniser hands out the ghost tokens; Presence::find / end, trait bits, F8MetaCntx::find_be, the field instantiator, GroupBase::create_group (a fresh element with the '
